@@ -152,7 +152,32 @@ pub fn run_c19(ctx: &Ctx) -> i32 {
         supports: all_supported,
         mem_based: true,
     });
-    if ctx.tier == Tier::Thorough {
+    // a write layer that does not support every setter, and an entry that only a lower layer holds
+    cases.push(Case {
+        cfg: Cfg::Ov(vec![Cfg::Phys, Cfg::Phys]),
+        label: "Ov[Phys,Phys]/lower-only",
+        base: 1,
+        also: &[],
+        supports: phys_supported,
+        mem_based: false,
+    });
+    cases.push(Case {
+        cfg: Cfg::Ov(vec![Cfg::Phys, Cfg::Mem]),
+        label: "Ov[Phys,Mem]/lower-only",
+        base: 1,
+        also: &[],
+        supports: phys_supported,
+        mem_based: false,
+    });
+    cases.push(Case {
+        cfg: Cfg::alt(Cfg::Ov(vec![Cfg::Phys, Cfg::Phys]), "/Z"),
+        label: "Alt(Ov[Phys,Phys],/Z)/lower-only",
+        base: 1,
+        also: &[],
+        supports: phys_supported,
+        mem_based: false,
+    });
+    {
         cases.push(Case {
             cfg: Cfg::Ov(vec![Cfg::Phys, Cfg::Phys]),
             label: "Ov[Phys,Phys]/upper+lower",
